@@ -11,12 +11,14 @@
  *  event units, executed in order:
  *   q        new user query                       a   oldest transmission in flight answered
  *   s r i    ... answered SERVFAIL/REFUSED/NOTIMP x   60 s pass, every attempt in flight times out
- *   w<ms>    the clock advances                   e<id,id,..>  ares_set_servers_csv
- *            (both only when nothing is in flight, otherwise skipped)
+ *   w<ms>    the clock advances (only when nothing is in flight, otherwise skipped)
+ *   e<id,id,..>  ares_set_servers_ports_csv, also while attempts are in flight: the
+ *            transmissions on the connections it closes are dropped
  * after the last event the transmissions still in flight are answered, oldest first.
  * output per event:  "<k> S <n> <unit> | rec rec ... | <server table>"
  *   rec: F<id> G<id> server-state callback failure/success, T<label>@<id> transmission,
- *        D<label>=<status> user callback, R1=<v> R2=<v> random draws of 1 / 2 bytes
+ *        D<label>=<status> user callback, R1=<v> R2=<v> random draws of 1 / 2 bytes,
+ *        Q<label> a user query with this label is being submitted, E the list update starts
  *   table (sorted order of channel->servers): id:idx:failures:probe_pending:retry_sec.usec
  */
 #include "drv_common.h"
@@ -280,6 +282,7 @@ static void run_case(long k, char *line)
       ares_dns_record_create(&recq, 0, ARES_FLAG_RD, ARES_OPCODE_QUERY, ARES_RCODE_NOERROR);
       ares_dns_record_query_add(recq, name, ARES_REC_TYPE_A, ARES_CLASS_IN);
       /* the label is the query id the library will draw next (ids are handed out in order) */
+      rec(" Q%d", (int)(g_next_id - 1));
       ares_send_dnsrec(ch, recq, query_cb, (void *)(intptr_t)(g_next_id - 1), NULL);
       ares_dns_record_destroy(recq);
       label++;
@@ -301,26 +304,31 @@ static void run_case(long k, char *line)
         vn_advance_ms(atol(u + 1));
       }
     } else if (u[0] == 'e') {
-      if (g_npend > 0) {
-        rec(" skip");
-      } else {
-        char  csv[2048];
-        char *p = u + 1;
-        size_t o = 0;
-        csv[0] = 0;
-        while (*p && o + 20 < sizeof(csv)) {
-          long id = strtol(p, &p, 10);
-          if (id >= 1 && id <= 250) {
-            o += (size_t)snprintf(csv + o, sizeof(csv) - o, "%s10.0.0.%ld", o ? "," : "", id);
-          }
-          if (*p == ',') {
-            p++;
-          } else {
-            break;
-          }
+      char   csv[2048];
+      char  *p = u + 1;
+      size_t o = 0;
+      int    i, j = 0;
+      csv[0] = 0;
+      while (*p && o + 20 < sizeof(csv)) {
+        long id = strtol(p, &p, 10);
+        if (id >= 1 && id <= 250) {
+          o += (size_t)snprintf(csv + o, sizeof(csv) - o, "%s10.0.0.%ld", o ? "," : "", id);
         }
-        rec(" rc=%d", ares_set_servers_csv(ch, csv));
+        if (*p == ',') {
+          p++;
+        } else {
+          break;
+        }
       }
+      rec(" E");
+      rec(" rc=%d", ares_set_servers_ports_csv(ch, csv));
+      /* transmissions on connections the update closed are gone */
+      for (i = 0; i < g_npend; i++) {
+        if (vn_socks[g_pend[i].sock].in_use) {
+          g_pend[j++] = g_pend[i];
+        }
+      }
+      g_npend = j;
     } else {
       is_event = 0;
     }
